@@ -763,7 +763,7 @@ func main() {
 	run.SetBudget(6*60e9, 60*60e9)
 	depth := 4
 	if run.Thorough() {
-		depth = 6
+		depth = 5
 	}
 	if os.Getenv("VERIF_C14_ONLY") != "conc" { // (debugging aid; evidence then says so)
 		chainmc.Explore(run, m, chainmc.Config{Depth: depth, Chunk: 4})
